@@ -60,6 +60,7 @@ def simulate(program, deselected=None):
     dry = bool(cfg.get("dry_run"))
     stop = bool(cfg.get("stop") or cfg.get("wip_flag"))
     faults = {int(k): exc for k, exc in program.get("hook_faults", [])}
+    named_faults = dict(((n, i), e) for n, i, e in program.get("hook_faults_named") or [])
     hook_cleanups = {}
     for c in program.get("cleanups", []):
         hook_cleanups.setdefault(int(c["at"]), []).append(bool(c.get("raises")))
@@ -107,6 +108,8 @@ def simulate(program, deselected=None):
         ref.hook_owner.append((owner.kind, owner.name) if owner is not None else ("testrun", ""))
         for raises in hook_cleanups.get(k, ()):
             layers[-1].cleanups.append(("h%d" % k, raises))
+        if k not in faults and (name, ident) in named_faults:
+            faults[k] = named_faults[(name, ident)]
         if faults.get(k) == "skip":
             # the hook excludes its element at run time (documented: feature.skip() / scenario.skip()
             # in a before-hook); in any other hook this fault kind does nothing
